@@ -26,6 +26,18 @@ def run(ctx, args):
     for f in lfails:
         f["trace"] = trace
     ctx.extra["closed_loop_histories"] = loops
+    # the TCP half of the return path: the hop the request came from is the CONNECTION it used (same driver as C12)
+    abeh = os.path.join(ctx.scratch, "affinity_behaviours.ndjson")
+    ctx.emit("MC_Affinity", "MC_AffinitySim.cfg", abeh, simulate="num=%d" % (40 if q else 600), depth=16, workers=1)
+    atrace = os.path.join(ctx.scratch, "affinity_trace.ndjson")
+    rc, out = ctx.run_driver("TestVfAffinity", env={"VERIF_IN": abeh, "VERIF_TRACE": atrace, "VERIF_MAXBEH": 40 if q else 600, "VERIF_NRAND": 6 if q else 60}, timeout=1500, allow_fail=True)
+    if rc != 0:
+        crash_or_infra(ctx, "C02", out)
+        return
+    afails, r = ctx.validate("Trace_Affinity", "Trace_Affinity_C02.cfg", atrace)
+    for f in afails:
+        f["trace"] = atrace
+    lfails += afails
     if lfails:
         report(ctx, "C02", lfails, classfn=lambda f: f["what"])
     run_focus(ctx, "C02", [("MC_ProxyC02.cfg", 1, 1)], reach=("Reach_RespRelay", "Reach_RespDrop"),
